@@ -3,6 +3,7 @@ import Driver.Common
 import Driver.OpsBits
 import Driver.OpsCode
 import Driver.OpsMask
+import Driver.OpsNoise
 open Panqec
 
 /-! Line protocol: one operation per input line, one output line per input line.
@@ -10,7 +11,7 @@ open Panqec
     (`none` = not my op); the first that answers wins. -/
 
 def handlers : List (List String → Option String) :=
-  [Drv.handleBits, Drv.handleCode, Drv.handleMask]
+  [Drv.handleBits, Drv.handleCode, Drv.handleMask, Drv.handleNoise]
 
 def handleToks (toks : List String) : String :=
   match handlers.findSome? (fun h => h toks) with
